@@ -117,35 +117,35 @@ def instances(t, shape, tier):
         yield {"v": "[]"}
         for v in vals:
             yield {"v": f"[{v}]"}
-        for a, b in itertools.islice(itertools.combinations(vals, 2), 0, 40 if tier == "thorough" else 12):
+        for a, b in itertools.islice(itertools.combinations(vals, 2), 0, None if tier == "thorough" else 12):
             yield {"v": f"[{a}, {b}, {a}]"}
     elif shape == "set":
         yield {"v": "set()"}
         for v in vals:
             yield {"v": "{" + v + "}"}
-        for a, b in itertools.islice(itertools.combinations(vals, 2), 0, 40 if tier == "thorough" else 12):
+        for a, b in itertools.islice(itertools.combinations(vals, 2), 0, None if tier == "thorough" else 12):
             yield {"v": "{" + a + ", " + b + "}"}
     elif shape == "tuple":
         yield {"v": "()"}
         for v in vals:
             yield {"v": f"({v},)"}
-        for a, b in itertools.islice(itertools.combinations(vals, 2), 0, 12):
+        for a, b in itertools.islice(itertools.combinations(vals, 2), 0, None if tier == "thorough" else 12):
             yield {"v": f"({a}, {b})"}
     elif shape == "dict":
         yield {"v": "{}"}
         for v in vals:
             yield {"v": "{'k': " + v + "}"}
-        for a, b in itertools.islice(itertools.combinations(vals, 2), 0, 12):
+        for a, b in itertools.islice(itertools.combinations(vals, 2), 0, None if tier == "thorough" else 12):
             yield {"v": "{'': " + a + ", 'k2': " + b + "}"}
     elif shape == "nested":
         for v in vals:
             yield {"v": "{'w': " + v + "}"}
     elif shape == "pair":
-        for a, b in itertools.islice(itertools.product(vals, vals), 0, 60 if tier == "thorough" else 20):
+        for a, b in itertools.islice(itertools.product(vals, vals), 0, None if tier == "thorough" else 20):
             yield {"v": a, "u": b}
     else:
         n = len(vals) if tier == "thorough" else 6
-        pairs = list(itertools.islice(itertools.combinations(vals, 2), 0, 12 if tier == "thorough" else 4))
+        pairs = list(itertools.islice(itertools.combinations(vals, 2), 0, None if tier == "thorough" else 4))
         if shape == "set-of-tuples":
             yield {"v": "set()"}
             for v in vals[:n]:
